@@ -16,7 +16,7 @@ FAULT_STEPS = ("ReadFail", "ExtClose", "WriteFail")
 def to_trace(events):
     """Project the recorder's events onto the vocabulary of PipeConn_Trace.tla."""
     out = []
-    for e in events:
+    for e in events or []:
         ev = e["ev"]
         if ev == "SetReadDeadline":
             if e.get("kind") == "idle":
